@@ -57,6 +57,10 @@ func c11Cases(tier string, seed int64) []core.Case {
 			}})
 		}
 	}
+	for _, where := range []string{"fiddestroy", "connclosed"} {
+		where := where
+		cases = append(cases, core.Case{ID: "slow-teardown/" + where, Run: func(ctx *core.Ctx) core.Result { return c11SlowTeardown(ctx, where) }})
+	}
 	for _, dotu := range []bool{true, false} {
 		dotu := dotu
 		cases = append(cases, core.Case{ID: fmt.Sprintf("ufs/dotu=%v", dotu), Run: func(ctx *core.Ctx) core.Result { return c11Ufs(ctx, dotu) }})
@@ -662,5 +666,120 @@ func c11Ufs(ctx *core.Ctx, dotu bool) core.Result {
 		}
 	}
 	res.Sample(map[string]interface{}{"server": "ufs", "dotu": dotu, "open_files_at_cut": "0..6", "cuts": "close,reset,midframe,pending-read"})
+	return res
+}
+
+// c11SlowTeardown: the implementation is slow inside the callbacks of a connection's close processing (ConnClosed,
+// or FidDestroy of one of its fids: e.g. waiting for an operation that still uses the fid); meanwhile the bystander
+// connection must be served and a new connection must be accepted ("no other connection is disturbed").
+func c11SlowTeardown(ctx *core.Ctx, where string) core.Result {
+	var res core.Result
+	for round := 0; round < 6 && len(res.Violations) == 0; round++ {
+		dotu := round%2 == 0
+		s := NewSess(Config{Dotu: dotu, Msize: 8192, Maxpend: []int{0, 4}[round%2]})
+		mk := func() (*CConn, bool) {
+			c := s.Dial()
+			ver := "9P2000"
+			if dotu {
+				ver = "9P2000.u"
+			}
+			if r, err := c.Version(8192, ver, W); err != nil || r.Msg == nil || r.Msg.Type != wire.Rversion {
+				return c, false
+			}
+			r, err := c.Rpc(&wire.Msg{Type: wire.Tattach, Tag: 1, Fid: 1, Afid: wire.NOFID, Uname: "root", Nuname: 0}, W)
+			return c, err == nil && r.Msg != nil && r.Msg.Type == wire.Rattach
+		}
+		by, ok1 := mk()
+		v, ok2 := mk()
+		if !ok1 || !ok2 {
+			res.Inconclusive = "c11: setup failed"
+			return res
+		}
+		seq0 := s.Log.Seq()
+		// the victim owns a few fids; one of them is learned by token
+		for i := 0; i < 1+round%3; i++ {
+			v.Rpc(&wire.Msg{Type: wire.Twalk, Tag: uint16(10 + i), Fid: 1, Newfid: uint32(20 + i), Wname: []string{"d"}}, W)
+		}
+		v.Rpc(&wire.Msg{Type: wire.Tstat, Tag: 30, Fid: 20}, W)
+		gate := make(chan struct{})
+		switch where {
+		case "fiddestroy":
+			var tok int64
+			for _, ev := range s.Log.Snapshot(seq0) {
+				if ev.Kind == "op" && ev.Op == "Stat" && ev.Conn == v.ID {
+					tok = ev.Fid
+				}
+			}
+			if tok == 0 {
+				res.Inconclusive = "c11: fid token not learned"
+				return res
+			}
+			s.Ops.SetDestroyGate(tok, gate)
+		case "connclosed":
+			s.Ops.SetConnClosedGate(v.ID, gate)
+		}
+		seq1 := s.Log.Seq()
+		v.Hangup()
+		kind := map[string]string{"fiddestroy": "destroy", "connclosed": "connclosed"}[where]
+		inside := waitFor(W, func() bool {
+			for _, ev := range s.Log.Snapshot(seq1) {
+				if ev.Kind == kind && (where == "fiddestroy" || ev.Conn == v.ID) {
+					return true
+				}
+			}
+			return false
+		})
+		res.Evals++
+		if !inside {
+			close(gate)
+			res.Inconclusive = "c11: the close processing never reached " + where
+			return res
+		}
+		det := map[string]interface{}{"teardown_blocked_in": where, "dotu": dotu, "round": round}
+		// bystander traffic and a new connection while the teardown is stuck
+		late := ""
+		for i, m := range []*wire.Msg{{Type: wire.Tstat, Tag: 40, Fid: 1}, {Type: wire.Twalk, Tag: 41, Fid: 1, Newfid: 50, Wname: []string{"d"}}, {Type: wire.Tclunk, Tag: 42, Fid: 50}} {
+			if r, err := by.Rpc(m, W); err != nil || r.Msg == nil {
+				late = fmt.Sprintf("bystander request %d (%s)", i, wire.TypeName(m.Type))
+				break
+			}
+		}
+		newOK := make(chan bool, 1)
+		go func() {
+			c, ok := mk()
+			c.Hangup()
+			newOK <- ok
+		}()
+		fresh := false
+		select {
+		case fresh = <-newOK:
+		case <-time.After(W):
+		}
+		close(gate)
+		if late != "" || !fresh {
+			// confirm it was a delay caused by the teardown (answered after the release), not a dead server
+			after, _ := by.Rpc(&wire.Msg{Type: wire.Tstat, Tag: 43, Fid: 1}, W)
+			if after != nil && after.Msg != nil {
+				if late != "" {
+					res.Violate("C11;bystander-stalled;slow-"+where, late+" was not answered while another connection's close processing was inside the implementation's "+where, det)
+				} else {
+					res.Violate("C11;new-connection-stalled;slow-"+where, "a new connection could not be set up while another connection's close processing was inside the implementation's "+where, det)
+				}
+			} else {
+				res.Inconclusive = "c11: bystander dead after slow teardown"
+			}
+		}
+		if !fresh {
+			select {
+			case <-newOK:
+			case <-time.After(W):
+			}
+		}
+		s.Ctl.WaitPassed("close.exit", v.ID, sched.AnyTag, 1, W)
+		by.Hangup()
+		res.Count("teardowns_held_inside_the_implementation", 1)
+		res.Sig(fmt.Sprintf("slow-teardown|%s|%v|%d", where, dotu, round%3))
+	}
+	res.Sample(map[string]interface{}{"scenario": "bystander and new connection served while a disconnected connection's teardown is blocked in the implementation", "blocked_in": where})
 	return res
 }
